@@ -18,6 +18,11 @@ META = {
         'R4': 'downstream witnesses (type-checked only, each with a compiling twin): face_count() on a face-less cell, with_faces() on a cell with faces, struct-literal construction '
               'and clip_by_plane() from another crate are all rejected by the compiler',
         'R5': '1D/2D rejected: ConvexCell::with_faces diverges (panics) for OneD and TwoD before writing anything and returns for ThreeD; the integrator-level with_faces maps it over every cell',
+        'R8': 'polygon walk (sort_face_vertices): the list of a plane\'s vertices is ordered by following shared planes — starting from the first vertex, the plane to look for next is '
+              'dual[(p + 1) mod 3] of the current vertex, p being the position of the face\'s plane in that vertex\'s (counter-clockwise) triple; position c = 1, 2, .. is filled by scanning '
+              'c, c+1, .. in steps of one for the vertex whose triple contains that plane, which is exchanged into position c and becomes the current vertex. The rotation sense (+1) is the '
+              'one the face-less decomposition uses (C14.R5: in plane dual[i] a vertex is entered over the edge shared with dual[i-1] and left over the edge shared with dual[i+1]), so '
+              'fans over the sorted polygons and the face-less tetrahedra have the same sign; Vertex::plane_idx returns the position of a plane in the triple',
         'R7': 'face incidence bookkeeping in with_faces: one vertex list per clipping plane; every vertex index is appended to the lists of exactly its three dual planes (dual[0], dual[1], dual[2], '
               'once each, unconditionally); each list is ordered by sort_face_vertices for its own plane; a face is created for list i iff it is non-empty, with clipping_plane = i, '
               'vertex_count = len(list i) and vertex_offset = running sum of the previous counts (from 0); the connection array is the in-order concatenation of the lists',
@@ -39,7 +44,7 @@ def run(ctx):
     for cfg in ctx.configs_used:
         F = ctx.facts(cfg)
         sfx = '' if cfg == 'default' else '@' + cfg
-        fns = (r1, r2, r3, r4, r5, r6, r7) if cfg == 'default' else (r1, r2, r3, r5, r6, r7)
+        fns = (r1, r2, r3, r4, r5, r6, r7, r8) if cfg == 'default' else (r1, r2, r3, r5, r6, r7)
         for fn in fns:
             rule = 'C15.' + fn.__name__.upper()
             ctx.guarded(rule, 'evaluate' + sfx, lambda: fn(ctx, F, rule, sfx))
@@ -452,3 +457,152 @@ def r7(ctx, F, rule, sfx):
     names = [n for n, _ in ch]
     okc = names[:3] == ['collect', 'flatten', 'into_iter'] and shf[2][0] == 'elem' and (repr(src) in shf[2][1] or shf[2][1] in repr(src) or 'phi' in repr(src))
     ctx.check(rule, 'connections-are-concatenated-lists' + sfx, okc, '%s over %s' % (' <- '.join(names), repr(src)[:60]), 'lists.into_iter().flatten().collect()', w, key_extra='concat')
+
+
+def r8(ctx, F, rule, sfx):
+    import re
+    sb = F.body_by_suffix('ConvexCell::sort_face_vertices')
+    pi = F.body_by_suffix('Vertex::plane_idx')
+    w = where(sb)
+    # plane_idx: position of the plane in the triple
+    ipp = I.Interp(F)
+    ipp.unroll_limit = 4
+    ipp.unroll_allow_returns = True
+    vert = I.St('voronoi::convex_cell::Vertex', 'Vertex', {'dual': I.arr([RF.sym('d0'), RF.sym('d1'), RF.sym('d2')])}, I.Sym(nf.sym_atom('V'), 'voronoi::convex_cell::Vertex'))
+    v, _ = ipp.call_body(pi, [ipp.ref_to(vert), RF.sym('q')])
+    ctx.evaluations += ipp.evaluations
+    rows = []
+    okp = True
+    for k in range(4):
+        def val(leaf, k=k):
+            # d_i == q exactly for i == k (k == 3: for none)
+            op, a, b = leaf.args
+            t = {repr(a), repr(b)}
+            hit = None
+            for i in range(3):
+                if t == {'d%d' % i, 'q'}:
+                    hit = (i == k)
+            if hit is None:
+                raise AnalysisIncomplete('plane_idx tests %r' % (leaf,))
+            return hit if op == '==' else (not hit)
+        got = dtab.evaluate(v, val)
+        if k < 3:
+            good = isinstance(got, I.St) and got.variant == 'Some' and as_rf(got.fields[0]) == RF.const(k)
+        else:
+            good = isinstance(got, I.St) and got.variant == 'None'
+        rows.append('%s -> %s' % ('dual[%d] == q' % k if k < 3 else 'q not in dual', repr(got)[:40]))
+        okp = okp and good
+    ctx.check(rule, 'plane_idx-is-position-in-triple' + sfx, okp, rows, 'Some(i) for the first i with dual[i] == plane, None if there is none', where(pi), key_extra='plane_idx')
+    # the walk
+    ip = I.Interp(F, no_inline=[pi['path']])
+    cell = I.Sym(nf.sym_atom('cell'), 'voronoi::convex_cell::ConvexCell<voronoi::convex_cell::WithoutFaces>')
+    ip.call_body(sb, [ip.ref_to(cell), I.Sym(nf.sym_atom('w'), '&mut [usize]'), RF.sym('pl')])
+    ctx.evaluations += ip.evaluations
+    loops = sorted([L for L in ip.loops if L['body'] is sb], key=lambda L: len(L['blocks']))
+    if len(loops) != 2:
+        raise AnalysisIncomplete('sort_face_vertices has %d loops (expected scan inside walk)' % len(loops))
+    Li, Lo = loops
+
+    def scalars(L):
+        return {i: (a, p) for i, (a, p) in enumerate(zip(L['init'], L['phi'])) if a is not None and p is not None and a is not p and isinstance(p, RF)}
+    so, si = scalars(Lo), scalars(Li)
+    PI = 'unwrap(call:voronoi::convex_cell::Vertex::plane_idx(%s, pl))'
+
+    def next_plane_form(value):
+        """value == <V>.dual[m(p)] with p = <V>.plane_idx(pl): -> (V text, k) when m(p) == (p + k) mod 3 for p = 0, 1, 2, else None.
+        Decided by substituting p = 0, 1, 2 (any way of writing the rotation — remainder, lookup table, match — gives the same map)."""
+        value = as_rf(value)
+        ps = [a for a in I.atoms_deep(value).values() if a.kind == 'app' and repr(a).startswith('unwrap(call:voronoi::convex_cell::Vertex::plane_idx(')]
+        if len(ps) != 1:
+            return None
+        m = re.match(r'^unwrap\(call:voronoi::convex_cell::Vertex::plane_idx\((.*), pl\)\)$', repr(ps[0]))
+        if not m:
+            return None
+        V = m.group(1)
+        img = []
+        for p_ in range(3):
+            x = I.subst(value, {ps[0]: RF.const(p_)})
+            def val(leaf):
+                if leaf.op == 'cmp' and 'len(' in repr(leaf) and leaf.args[0] in ('<=', '<', '>', '>='):
+                    return False        # "candidates exhausted": not on the match arm
+                raise AnalysisIncomplete('rotation depends on %r' % (leaf,))
+            x = dtab.evaluate(as_rf(x), val)
+            mm = re.match(r'^(.*)\.dual\[(\d)\]$', repr(x))
+            if not mm or mm.group(1) != V:
+                return None
+            img.append(int(mm.group(2)))
+        ks = {(img[p_] - p_) % 3 for p_ in range(3)}
+        if len(ks) != 1:
+            return (V, -1)
+        return (V, ks.pop())
+    # roles in the outer loop: position (init 1), plane looked for (init of the next-plane form)
+    pos = [(i, a, p) for i, (a, p) in so.items() if isinstance(a, RF) and a.is_const() and a.const_value() == 1]
+    npl = [(i, a, p, next_plane_form(a)) for i, (a, p) in so.items() if next_plane_form(a) is not None]
+    if len(pos) != 1 or len(npl) != 1:
+        ctx.bad(rule, 'walk-starts-at-first-vertex' + sfx, 'loop-carried values: %s' % {i: repr(a)[:80] for i, (a, p) in so.items()},
+                'position from 1; plane looked for from vertices[w[0]].dual[(p+1) mod 3]', w, key_extra='walk-start')
+        return
+    pi_, pinit, pphi = pos[0]
+    ni, ninit, nphi, (v0, k0) = npl[0]
+    ok = v0 == 'cell.vertices[w[0]]' and k0 % 3 == 1
+    ctx.check(rule, 'walk-starts-at-first-vertex' + sfx, ok, 'first vertex %s, next plane = dual[(p %+d) mod 3]' % (v0, k0), 'vertices[w[0]], dual[(p + 1) mod 3]', w, key_extra='walk-start:%d' % (k0 % 3))
+    # scan cursor
+    sw = [e for e in ip.events if e.callee and e.callee.endswith('::swap') and e.body is sb]
+    if not sw:
+        ctx.bad(rule, 'scan-from-the-position-in-steps-of-one' + sfx, 'the matched vertex is never exchanged into the position being filled', 'swap(cur_idx, test_idx) on a match', w, key_extra='no-exchange')
+        return
+    if len(sw) != 1:
+        raise AnalysisIncomplete('exchange sites in sort_face_vertices: %d' % len(sw))
+    sw = sw[0]
+    a1, a2 = repr(as_rf(sw.fargs[1])), repr(as_rf(sw.fargs[2]))
+    cur = [(i, a, p) for i, (a, p) in si.items() if repr(p) in (a1, a2) and repr(p) != repr(pphi)]
+    if len(cur) != 1:
+        raise AnalysisIncomplete('scan cursor not identified (exchange of %s and %s)' % (a1[-30:], a2[-30:]))
+    ci, cinit, cphi = cur[0]
+    steps = [as_rf(vals.get(ci)) - cphi for g, vals in Li['back']]
+    ok = repr(as_rf(cinit)) == repr(pphi) and steps and all(d.is_const() and d.const_value() == 1 for d in steps) and {a1, a2} == {repr(pphi), repr(cphi)}
+    ctx.check(rule, 'scan-from-the-position-in-steps-of-one' + sfx, ok, 'cursor from %s, step %s, exchange(%s, %s)' % (repr(as_rf(cinit))[-30:], [repr(d) for d in steps], a1[-30:], a2[-30:]),
+              'test_idx = cur_idx, +1 per refusal, swap(cur_idx, test_idx) on a match', w, key_extra='scan')
+    # match condition: the candidate's triple contains the plane looked for
+    cont = [e for e in ip.events if e.callee and e.callee.endswith('::contains') and e.body is sb]
+    okc = len(cont) == 1
+    cand = None
+    if okc:
+        m = re.match(r'^(.*)\.dual$', repr(cont[0].fargs[0]))
+        okc = bool(m) and repr(as_rf(cont[0].fargs[1])) == repr(nphi)
+        cand = m.group(1) if m else None
+        okc = okc and cand is not None and cand.endswith('[%s]]' % repr(cphi)) and cand.startswith('cell.vertices[')
+    ctx.check(rule, 'match-is-shared-plane' + sfx, okc, [repr(a)[-70:] for a in cont[0].fargs] if cont else 'no contains()', 'vertices[w[test_idx]].dual.contains(next_plane)', w, key_extra='match')
+    # on a match (the exchange's guard) ... the exchange sits on the `contains` arm, the back edge on its negation
+    gtxt = ' & '.join(repr(x) for x in sw.guard)
+    btxt = [' & '.join(repr(x) for x in g) for g, _v in Li['back']]
+    okg = 'b:call:core::slice::<impl [T]>::contains(' in gtxt and '!b:call:core::slice::<impl [T]>::contains(' not in gtxt and all('!b:call:core::slice::<impl [T]>::contains(' in b for b in btxt)
+    ctx.check(rule, 'exchange-on-match-refusal-otherwise' + sfx, okg, 'exchange when %s; next candidate when %s' % (gtxt[-80:], [b[-80:] for b in btxt][:1]), 'swap on contains, test_idx += 1 otherwise', w, key_extra='arms')
+    # outer recurrences on the match arm: position + 1, plane looked for = dual[(p+1) mod 3] of the matched vertex
+    def val_match(leaf):
+        return False        # "candidates exhausted" is false on the match arm
+    okn = True
+    obs = []
+    for g, vals in Lo['back']:
+        npos = as_rf(dtab.evaluate(as_rf(vals.get(pi_)), val_match)) - pphi
+        nn = as_rf(vals.get(ni))
+        f = next_plane_form(nn)
+        obs.append('position %+d; next plane from %s' % (int(npos.const_value()) if npos.is_const() else 99, ('%s, dual[(p %+d) mod 3]' % (f[0][-40:], f[1])) if f else repr(nn)[-80:]))
+        okn = okn and npos.is_const() and npos.const_value() == 1 and f is not None and f[1] % 3 == 1 and cand is not None and f[0] == cand
+    ctx.check(rule, 'matched-vertex-becomes-current' + sfx, okn and bool(Lo['back']), obs[:2], 'cur_idx += 1; next_plane = matched.dual[(p + 1) mod 3] with p = matched.plane_idx(face plane)', w, key_extra='advance')
+    # outer bound: positions 1 .. len-2 (the last vertex is what remains)
+    hb = [x for g, _v in Lo['back'] for x in g if isinstance(x, I.B) and x.op == 'cmp' and repr(pphi) in (repr(x.args[1]), repr(x.args[2]))]
+    okb = False
+    if hb:
+        op, a, b = hb[0].args
+        d = as_rf(a) - as_rf(b)
+        # pos < len - 1  <=>  pos - len + 1 < 0
+        lens = [x for x in I.atoms_deep(d).values() if x.kind == 'app' and x.name == 'len']
+        if len(lens) == 1:
+            k = d - (pphi - RF.atom(lens[0]))
+            k2 = d + (pphi - RF.atom(lens[0]))
+            if k.is_const():
+                okb = (op == '<' and k.const_value() == 1) or (op == '<=' and k.const_value() == 2)
+            elif k2.is_const():
+                okb = (op == '>' and k2.const_value() == -1) or (op == '>=' and k2.const_value() == -2)
+    ctx.check(rule, 'walk-fills-all-but-the-last-position' + sfx, okb, repr(hb[0])[:120] if hb else 'no bound on the position', 'while cur_idx < len - 1', w, key_extra='bound')
